@@ -3,7 +3,8 @@
    wf n X says that every column has n entries.  The same functions (split, fit_transform, fit,
    transform) are evaluated against fairlearn.preprocessing.CorrelationRemover on every run. *)
 From Coq Require Import QArith ZArith List Sorted.
-From FL Require Import Num CorrRemover CorrRemover_proofs.
+From FL Require Import Num CorrRemover CorrRemover_proofs CorrExpr CorrRemover_gj.
+From FLGen Require Gen_corr.
 Import ListNotations.
 Open Scope Q_scope.
 
@@ -98,6 +99,116 @@ Theorem C15_transform_is_fit_transform_partial :
 Proof. exact transform_is_fit_transform_api_partial. Qed.
 Print Assumptions C15_transform_is_fit_transform_partial.
 
+(* ---------------------------------------------------------------------------------------------------------
+   Second part: Gauss-Jordan correctness, the full transform = fit_transform, transform_affine, source tie *)
+
+(* correctness of the Gauss-Jordan elimination behind beta_: whenever a pivot is found in every column
+   (solve_beta returns Some), the coefficients satisfy C^T C beta = C^T X, row by row and as the closed boolean *)
+Theorem C15_solve_beta_correct :
+  forall (n : nat) (C X : mat) (b : list vec), wf n C -> wf n X -> solve_beta C X = Some b ->
+  (length b = length C /\
+   forall c j x, In c C -> nth_error X j = Some x -> dot (map (dot c) C) (bcol j b) == dot c x) /\
+  normal_eqs_hold C b X = true.
+Proof. exact (fun n C X b HC HX H => conj (solve_beta_rows n C X b HC HX H) (solve_beta_normal_eqs n C X b HC HX H)). Qed.
+Print Assumptions C15_solve_beta_correct.
+
+(* the guard "a pivot in every column" implies full column rank in the ordinary sense: no non-trivial
+   combination of the centred sensitive columns vanishes *)
+Theorem C15_guard_is_full_rank :
+  forall (n : nat) (C X : mat) (b : list vec) (z : vec), wf n C -> length z = n -> solve_beta C X = Some b ->
+  forall ws, length ws = length C -> Forall (fun q => q == 0) (lincomb ws C z) -> Forall (fun q => q == 0) ws.
+Proof. exact solve_beta_independent. Qed.
+Print Assumptions C15_guard_is_full_rank.
+
+(* what fit stores: the per-column means and coefficients solving the normal equations of the centred block *)
+Theorem C15_fit_spec :
+  forall (n : nat) (names ids : list Z) (X Xuse Xs : mat) (f : fitted),
+  wf n X -> length names = length X -> split names ids X = Some (Xuse, Xs) -> fit names ids X = Some f ->
+  f_mean f = map mean Xs /\ length (f_beta f) = length Xs /\
+  normal_eqs_hold (centre Xs) (f_beta f) Xuse = true /\
+  (forall c j x, In c (centre Xs) -> nth_error Xuse j = Some x ->
+     dot c (lincomb (bcol j (f_beta f)) (centre Xs) x) == dot c x).
+Proof. exact fit_spec. Qed.
+Print Assumptions C15_fit_spec.
+
+(* FULL: transform (fit X) X = fit_transform X entrywise, under the full-rank guard only
+   (fit returns Some exactly when Gauss-Jordan finds a pivot in every column of the centred block) *)
+Theorem C15_transform_is_fit_transform :
+  forall (n : nat) (names ids : list Z) (alpha : Q) (X : mat) (f : fitted),
+  wf n X -> length names = length X -> fit names ids X = Some f ->
+  exists o1 o2, transform names ids f alpha X = Some o1 /\
+                fit_transform names ids alpha X = Some o2 /\ meq o1 o2.
+Proof. exact transform_is_fit_transform. Qed.
+Print Assumptions C15_transform_is_fit_transform.
+
+(* transform_affine: on ANY data X (n rows, same columns) cell (i, j) of the output is
+     alpha * (u - (srow - mean) . beta[:, j]) + (1 - alpha) * u
+   with u = X_use[i, j], srow = X_sensitive[i, :] and the STORED (training) means and coefficients of f;
+   one output column per non-sensitive column *)
+Theorem C15_transform_affine :
+  forall (n : nat) (names ids : list Z) (f : fitted) (alpha : Q) (X Xuse Xs out : mat),
+  wf n X -> length names = length X ->
+  split names ids X = Some (Xuse, Xs) -> transform names ids f alpha X = Some out ->
+  length out = length Xuse /\
+  forall i j, (i < n)%nat -> (j < length Xuse)%nat ->
+    nth i (nth j out []) 0 ==
+    alpha * (nth j (row i Xuse) 0 - dot (vsub (row i Xs) (f_mean f)) (bcol j (f_beta f)))
+    + (1 - alpha) * nth j (row i Xuse) 0.
+Proof. exact transform_affine. Qed.
+Print Assumptions C15_transform_affine.
+
+(* row-wise: output row i depends only on input row i (two data sets of any numbers of rows) *)
+Theorem C15_transform_rowwise :
+  forall (n n' : nat) (names ids : list Z) (f : fitted) (alpha : Q) (X X' out out' : mat) (i i' : nat),
+  wf n X -> wf n' X' -> length names = length X -> length X' = length X ->
+  (i < n)%nat -> (i' < n')%nat -> veq (row i X) (row i' X') ->
+  transform names ids f alpha X = Some out -> transform names ids f alpha X' = Some out' ->
+  veq (row i out) (row i' out').
+Proof. exact transform_rowwise. Qed.
+Print Assumptions C15_transform_rowwise.
+
+(* the training data enter only through (sensitive_mean_, beta_) *)
+Theorem C15_transform_through_mean_beta :
+  forall (n : nat) (names ids : list Z) (f1 f2 : fitted) (alpha : Q) (X out1 out2 : mat),
+  wf n X -> length names = length X ->
+  veq (f_mean f1) (f_mean f2) -> meq (f_beta f1) (f_beta f2) ->
+  transform names ids f1 alpha X = Some out1 -> transform names ids f2 alpha X = Some out2 ->
+  length out1 = length out2 /\
+  forall i j, (i < n)%nat -> (j < length out1)%nat -> nth i (nth j out1 []) 0 == nth i (nth j out2 []) 0.
+Proof. exact transform_through_mean_beta. Qed.
+Print Assumptions C15_transform_through_mean_beta.
+
+(* the cell expression is affine in the row: t * row + (1 - t) * row' goes to the same combination of images *)
+Theorem C15_affine_entry_affine :
+  forall (means : list Q) (beta : list vec) (alpha : Q) (j : nat) (t u u' : Q) (s s' : vec),
+  length s = length s' ->
+  affine_entry means beta alpha j (t * u + (1 - t) * u') (vblend t s s') ==
+  t * affine_entry means beta alpha j u s + (1 - t) * affine_entry means beta alpha j u' s'.
+Proof. exact affine_entry_affine. Qed.
+Print Assumptions C15_affine_entry_affine.
+
+(* SOURCE TIE (regenerated from /repo on every run by translators/t_corr.py): the expressions that fit()
+   stores in sensitive_mean_ / beta_ evaluate to the model's fit_split (per-COLUMN mean, centred block,
+   lstsq(centred, X_use)[0]) ... *)
+Theorem C15_source_fit :
+  forall (Xuse Xs : mat), eval_fit Xuse Xs Gen_corr.fit_mean_ex Gen_corr.fit_beta_ex = fit_split Xuse Xs.
+Proof. exact eval_fit_model. Qed.
+Print Assumptions C15_source_fit.
+
+(* ... and the expression returned by transform() evaluates to the model's transform_split:
+   alpha * (X_use - (X_sensitive - sensitive_mean_) . beta_) + (1 - alpha) * X_use *)
+Theorem C15_source_transform :
+  forall (f : fitted) (alpha : Q) (Xuse Xs : mat),
+  eval_transform f alpha Xuse Xs Gen_corr.transform_return_ex = Some (transform_split f alpha Xuse Xs).
+Proof. exact eval_transform_model. Qed.
+Print Assumptions C15_source_transform.
+
+(* X_sensitive - X_sensitive.mean() (no axis) is the scalar centring refuted by C15_global_centring_refuted *)
+Theorem C15_scalar_mean_is_global_centring :
+  forall (E : env), eval E (Sub XSens (MeanAll XSens)) = Some (VM (centre_global (e_sens E))).
+Proof. exact eval_scalar_mean_is_global. Qed.
+Print Assumptions C15_scalar_mean_is_global_centring.
+
 (* non-vacuity: the premises of C15_zero_covariance / C15_transform_is_fit_transform_partial hold on a
    6 x 4 matrix with two sensitive columns given in decreasing order; the output really differs from the
    input columns, has zero covariance with the sensitive columns, and the learned beta solves the normal
@@ -111,3 +222,18 @@ Example C15_example :
   | _, _, _ => false
   end = true.
 Proof. split; [repeat constructor|]. split; [reflexivity|]. vm_compute. reflexivity. Qed.
+
+(* non-vacuity of the second part: on the same matrix fit succeeds (the guard holds), the learned beta is not
+   zero, and transform on two FRESH rows differs from the input columns *)
+Example C15_example_transform :
+  match fit [0;1;2;3]%Z [2;0]%Z witness_X with
+  | Some f =>
+      match split [0;1;2;3]%Z [2;0]%Z [[1;4];[2;0];[3;3];[5;1]],
+            transform [0;1;2;3]%Z [2;0]%Z f (1#2) [[1;4];[2;0];[3;3];[5;1]] with
+      | Some (Xuse, _), Some out =>
+          (negb (mat_eqb out Xuse) && negb (mat_eqb (f_beta f) [[0;0];[0;0]]))%bool
+      | _, _ => false
+      end
+  | None => false
+  end = true.
+Proof. vm_compute. reflexivity. Qed.
